@@ -976,7 +976,4 @@ Proof.
       first [ apply p_F4_false_cross; [exact I|exact L|destruct f1; reflexivity|reflexivity|eexists; reflexivity|eexists; reflexivity]
             | apply p_F4_false_by_shift; destruct f1; cbv -[String.length Nat.eqb Nat.leb negb orb andb]; rewrite !L; reflexivity ]
       |]); destruct Ib|]).
-  - do 2 eexists. splits; try reflexivity. eexists. reflexivity.
-  - do 2 eexists. splits; reflexivity.
-Qed.
-
+Show. Abort All.
